@@ -80,7 +80,8 @@ int aws_cli_getopt_long(
     }
 
     char first_char = argv[aws_cli_optind][0];
-    char second_char = argv[aws_cli_optind][1];
+    /* an empty argument has no second character: do not read past its terminator */
+    char second_char = first_char ? argv[aws_cli_optind][1] : '\0';
     char *option_start = NULL;
     const struct aws_cli_option *option = NULL;
     bool positional_arg_encountered = false;
